@@ -35,6 +35,7 @@ static int cmd_replay(int argc, char **argv) {
 	if (prop == "C11") return gen::c11_replay(*pj, arg_flag(argc, argv, "--trace"));
 	ops::Plan plan;
 	if (!ops::plan_from_json(*pj, plan, err)) { fprintf(stderr, "replay: %s\n", err.c_str()); return 2; }
+	if (plan.note == "fullshipped") exec::enable_shipped_full_mem_model();
 	exec::Options opt; opt.replay = true; opt.trace = arg_flag(argc, argv, "--trace");
 	exec::Report rep = exec::execute(plan, opt);
 	printf("%s\n", exec::report_to_json(rep, plan, arg_flag(argc, argv, "--with-plan")).c_str());
@@ -58,6 +59,7 @@ static int cmd_worker(int argc, char **argv) {
 	       (unsigned long long)exec::dataset_items(), prop.c_str());
 	fflush(stdout);
 	if (prop == "C11") return gen::c11_worker(seed, from, to, step, budget, samples, tier);
+	if (mode == "fullshipped") exec::enable_shipped_full_mem_model();
 	gen::Context gc; gc.property = prop; gc.tier = tier; gc.mode = mode;
 	gen::init_context(gc);
 	if (mode == "enum") { uint64_t n = gen::enum_size(gc); if (to > n) to = n; printf("{\"type\":\"enum\",\"size\":%llu}\n", (unsigned long long)n); fflush(stdout); }
